@@ -12,8 +12,9 @@ directory is restored and the operation is re-run once per (call index, torn-wri
 point the process "dies" (every later filesystem call raises `Crash` without executing).
 
 Oracle, decided on the left-over directory: the target path holds byte-for-byte the complete old
-content (or does not exist if it did not) or the complete new content — for `sob` additionally
-`sob.load` of the target returns an object equal to the old or the new one; an unrelated sibling
+content (or does not exist if it did not) or the complete new content (for source-style
+Applications, whose aot output is not reproducible from save to save, "complete new content" is what
+the observed run wrote to one file and closed before the crash); an unrelated sibling
 file is untouched; every other directory entry is a temporary: for setContent a name of the form
 <16 chars><basename><ext> (the documented shape of `temporarySibling`), for sob a path that the
 crash-free run created and removed itself.  Finally the same operation is repeated without a crash
@@ -31,9 +32,10 @@ as usual: count pass, completed check, every crash point, redo.  open() flags ar
 real filesystem (`open(..., "wb")` truncates, `os.open` without O_TRUNC + fdopen does not).
 
 Guards: which of old/new survives is never constrained; expected new bytes for `sob` are taken from
-a crash-free save of the same object in a separate directory (pickle/aot output is deterministic for
-the same object in one process — verified per case, else the byte comparison is skipped and only the
-loaded-object comparison decides).
+a crash-free save of the same object in a separate directory when two such saves agree, otherwise
+from the writes of the observed run itself.  The oracle is on BYTES only: whether `sob.load` gives
+back an equal object is serialisation fidelity (aot has an id()-reuse defect that occasionally emits
+a dangling `Deref`), counted as `serialisation_unfaithful_not_c52`, never a C52 violation.
 """
 import os
 import shutil
@@ -113,31 +115,60 @@ class Base:
         except FileNotFoundError:
             return None
 
+    # ---- what did the run under observation finish writing? -----------------------------------------
+    def guarded(self):
+        """A FaultFS whose call hook records, per path, the bytes handed to write() since its last
+        open-for-write and whether close() was issued afterwards."""
+        self.written, self.closed = {}, set()
+
+        def on_call(k, kind, detail, data):
+            if kind in ("open", "os.open"):
+                self.written[detail[0]] = bytearray()
+                self.closed.discard(detail[0])
+            elif kind == "write" and detail[0] in self.written:
+                self.written[detail[0]] += data if isinstance(data, (bytes, bytearray)) else data.encode("utf-8")
+            elif kind == "close":
+                self.closed.add(detail[0])
+
+        return FaultFS(self.root, on_call=on_call)
+
+    def complete_new(self):
+        """The complete new content.  Deterministic serialisations: the reference bytes.  Otherwise
+        (source-style Applications: twisted's aot output differs from save to save) it is defined at
+        the filesystem boundary: everything the observed run wrote to one file and then closed."""
+        if self.compare_bytes:
+            return [self.new]
+        return [bytes(self.written[p]) for p in self.written if p in self.closed]
+
     def check(self, point, crashed):
         ctx = self.ctx
         ctx.count("target_checks")
         got = self.read_target()
-        allowed = [self.new] if not crashed else [self.old, self.new]
-        if self.compare_bytes:
-            if got not in allowed:
-                if got is None:
-                    key = "target-lost"
-                elif got != self.new and self.new.startswith(got):
-                    key = "partial-new-content-at-target"
-                elif got.startswith(self.new):
-                    key = "new-content-followed-by-stale-tail-of-leftover-temporary"
-                elif self.old is not None and got != self.old and self.old.startswith(got):
-                    key = "truncated-old-content-at-target"
-                else:
-                    key = "target-neither-old-nor-new"
-                ctx.violation(key if (crashed or "stale-tail" in key) else "completed-op-wrong-content", "target path holds neither the complete old nor the complete new content",
-                              self.witness(point, {"got_len": None if got is None else len(got), "got_head": None if got is None else got[:60]}))
-            elif crashed:
-                ctx.count("old_kept" if got == self.old else "new_kept")
+        news = self.complete_new()
+        allowed = news if not crashed else [self.old] + news
+        ref_new = news[0] if news else None
+        if got not in allowed:
+            if got is None:
+                key = "target-lost"
+            elif ref_new is None:
+                key = "target-changed-before-new-content-was-complete"
+            elif got != ref_new and ref_new.startswith(got):
+                key = "partial-new-content-at-target"
+            elif got.startswith(ref_new):
+                key = "new-content-followed-by-stale-tail-of-leftover-temporary"
+            elif self.old is not None and got != self.old and self.old.startswith(got):
+                key = "truncated-old-content-at-target"
             else:
-                ctx.count("completed_new_verified")
-        with FaultFS(self.root):
-            self.load_equal(point, crashed, got)
+                key = "target-neither-old-nor-new"
+            ctx.violation(key if (crashed or "stale-tail" in key) else "completed-op-wrong-content", "target path holds neither the complete old nor the complete new content",
+                          self.witness(point, {"got_len": None if got is None else len(got), "got_head": None if got is None else got[:60]}))
+        elif crashed:
+            ctx.count("old_kept" if got == self.old else "new_kept")
+        else:
+            ctx.count("completed_new_verified")
+        if got in allowed:
+            with FaultFS(self.root):
+                self.load_equal(point, crashed, got)
         with open(self.sentinel, "rb") as f:
             if f.read() != b"sentinel-%d" % self.case_id:
                 ctx.violation("unrelated-file-damaged", "a sibling file was modified", self.witness(point))
@@ -198,7 +229,7 @@ class Base:
             if not fs.crashed:
                 ctx.inconclusive("C52: crash point of the earlier larger save not reached")
                 return
-            if self.compare_bytes and self.read_target() != self.old:
+            if self.read_target() != self.old:
                 return  # the earlier generation itself is judged by its own cases; start from what it left
             left = [n for n in os.listdir(self.dir) if n not in (os.path.basename(self.target), "unrelated.dat")]
             for n in left:
@@ -219,7 +250,7 @@ class Base:
             self.pristine = snapshot_tree(self.dir)
             self.plant_leftovers()
             before = set(os.listdir(self.dir))
-            count = FaultFS(self.root)
+            count = self.guarded()
             with count:
                 self.op()
             # temporaries = paths the crash-free run opened/created for writing and removed itself
@@ -235,7 +266,7 @@ class Base:
             pts = crash_points(count.log)
             for k, plen in pts:
                 restore_tree(self.dir, self.pristine)
-                fs = FaultFS(self.root).arm(k, plen)
+                fs = self.guarded().arm(k, plen)
                 with fs:
                     try:
                         self.op()
@@ -255,10 +286,10 @@ class Base:
                 self.check(point, True)
                 # reboot: the same operation, crash-free, on the left-over directory
                 try:
-                    with FaultFS(self.root):
+                    with self.guarded():
                         self.op()
                     ctx.count("redo_after_crash")
-                    if self.compare_bytes and self.read_target() != self.new:
+                    if self.read_target() not in self.complete_new():
                         ctx.violation("redo-after-crash-wrong-content", "repeating the operation after the crash did not produce the new content", self.witness(point))
                 except Exception as e:
                     ctx.violation("redo-after-crash-raised", "repeating the operation on the left-over directory raised", self.witness(point, {"exception": repr(e)}))
@@ -365,7 +396,7 @@ class Sob(Base):
         self.new = blobs[0]
         self.compare_bytes = blobs[0] == blobs[1]
         if not self.compare_bytes:
-            self.ctx.count("sob_bytes_not_deterministic_object_compare_only")
+            self.ctx.count("sob_bytes_not_deterministic_reference_from_observed_writes")
         self.old = None
         if exists:
             self.persistent(self.old_obj, name).save(tag=self.tag, filename=self.filename)
@@ -383,21 +414,22 @@ class Sob(Base):
         self.p.save(tag=self.tag, filename=self.filename)
 
     def load_equal(self, point, crashed, got):
+        """Informational only (the target already holds complete old or complete new BYTES): does
+        sob.load give back the object that was saved?  A mismatch is a serialisation defect of
+        twisted.persisted.aot / pickle, not a failure of atomic replacement, so it is counted and
+        described in the evidence but never a C52 violation."""
         if got is None:
-            if self.old is not None or not crashed:
-                self.ctx.violation("target-lost", "the saved application file vanished", self.witness(point))
             return
         try:
             back = self.sob.load(self.target, self.style)
         except Exception as e:
-            self.ctx.violation("saved-file-does-not-load", "sob.load of the target after the crash raised", self.witness(point, {"exception": repr(e)[:300]}))
+            self.ctx.count("serialisation_unfaithful_not_c52")
+            self.ctx.seen("serialisation_unfaithful", "load raised %s (%s)" % (type(e).__name__, self.kind))
             return
         self.ctx.count("sob_loads_compared")
-        ok_new = self.same(back, self.new_obj)
-        ok_old = crashed and self.old is not None and self.same(back, self.old_obj)
-        if not (ok_new or ok_old):
-            self.ctx.violation("loaded-object-neither-old-nor-new", "the target loads to an object that is neither the old nor the new one",
-                               self.witness(point, {"loaded": repr(back)[:300]}))
+        if not (self.same(back, self.new_obj) or (self.old is not None and self.same(back, self.old_obj))):
+            self.ctx.count("serialisation_unfaithful_not_c52")
+            self.ctx.seen("serialisation_unfaithful", "loaded object differs from the saved one (%s)" % self.kind)
 
 
 class SobApp(Sob):
